@@ -70,6 +70,7 @@ func expectTokens(b []byte) (string, bool) {
 	stdjson.Compact(&cb, b)
 	doc := cb.Bytes()
 	dec := stdjson.NewDecoder(bytes.NewReader(doc))
+	dec.UseNumber() // number tokens are kept as literals: a valid number outside the float64 range (1e400) is still a token
 	type frame struct {
 		obj   bool
 		n     int // number of completed members/elements
@@ -169,6 +170,51 @@ func jTokReuse(first, second []byte) {
 	emit("j.tokreuse", hexs(first)+" "+hexs(second), impl, orc)
 }
 
+// two tokenizers alive at the same time, the first one run to the END of a document (which releases its pooled scope
+// stack) and Reset before the second is created: advancing them in turns, each yields the tokens it yields alone
+func jTokPair(first, a, b []byte) {
+	if !mine() {
+		skip()
+		return
+	}
+	var orc string
+	impl := guarded(func() string {
+		orc = runTokenizer(json.NewTokenizer(a), a) + " | " + runTokenizer(json.NewTokenizer(b), b)
+		t1 := json.NewTokenizer(first)
+		for t1.Next() {
+		}
+		t1.Next() // Next after the end is allowed and must not release anything twice
+		t1.Reset(a)
+		t2 := json.NewTokenizer(b)
+		var o1, o2 []string
+		d1, d2 := false, false
+		for steps := 0; (!d1 || !d2) && steps < len(a)+len(b)+8; steps++ {
+			if !d1 {
+				if t1.Next() {
+					o1 = append(o1, tokObs(t1.Value, byte(t1.Delim), t1.Depth, t1.Index, t1.IsKey))
+				} else {
+					d1 = true
+					if t1.Err != nil {
+						o1 = append(o1, "ERR")
+					}
+				}
+			}
+			if !d2 {
+				if t2.Next() {
+					o2 = append(o2, tokObs(t2.Value, byte(t2.Delim), t2.Depth, t2.Index, t2.IsKey))
+				} else {
+					d2 = true
+					if t2.Err != nil {
+						o2 = append(o2, "ERR")
+					}
+				}
+			}
+		}
+		return strings.Join(o1, " ") + " | " + strings.Join(o2, " ")
+	})
+	emit("j.tokpair", hexs(first)+" "+hexs(a)+" "+hexs(b), impl, orc)
+}
+
 func c17() {
 	thorough := *tier == "thorough"
 	// (1) all strings of <= 3 symbols over the class alphabet (termination, stickiness; exact tokens when valid)
@@ -179,6 +225,11 @@ func c17() {
 		n = 60000
 	}
 	special := []string{`[{},1]`, `[[],{}]`, `{"a":{},"b":1}`, `{"a":[],"b":{"c":[{}]},"d":null}`, `[{"a":1},2,{"b":{}},[]]`, `[[[]]]`, `{"a":{"b":{"c":{}}},"d":[]}`, `[1,[2,[3,[4]]],5]`, `{"":""}`, `[{},{},{}]`, `[[{}],1]`, `{"k":[{},{"x":[]}],"z":true}`}
+	// number tokens at the boundaries of the accessors (Int/Uint/Float): the int64 and uint64 ranges, exponents, zeros
+	for _, lit := range []string{"0", "-0", "9223372036854775807", "9223372036854775808", "-9223372036854775808", "-9223372036854775809",
+		"18446744073709551615", "18446744073709551616", "12345678901234567890", "4294967296", "-1", "1e0", "1E+2", "-1.5e-3", "0.0", "1.7976931348623157e308", "1e400", "5e-324", "123456789012345678901234567890"} {
+		special = append(special, lit, "["+lit+"]", `{"id":`+lit+`,"small":42}`, "[9223372036854775807,"+lit+"]")
+	}
 	for _, s := range special {
 		jTokenize([]byte(s))
 	}
@@ -191,6 +242,9 @@ func c17() {
 				m[rndn(len(m))] = pick([]byte(`{}[],:" 0nx`))
 			}
 			jTokenize(m)
+		}
+		if i%10 == 3 {
+			jTokPair([]byte(pick([]string{`[{"a":[1]}]`, `{}`, `[[[[1]]]]`, `1`})), []byte(genDoc(4)), []byte(d))
 		}
 		if i%5 == 0 {
 			jTokReuse([]byte(genDoc(4)+pick([]string{"", "]", "x", "{"})), []byte(d))
